@@ -491,6 +491,7 @@ func runC12(c *Ctx) {
 
 	// ================= R4 =================
 	c12BoundedPasses(c)
+	c12MoveAcyclic(c)
 }
 
 // isIncrementOf: the store writes load(addr)+1 back to the same address.
